@@ -28,9 +28,47 @@ fn main() {
 			let stdin = std::io::stdin();
 			let out = std::io::stdout();
 			let mut out = std::io::BufWriter::new(out.lock());
+			// Each case runs on a worker thread and is given a time limit: code under test that loops
+			// forever must show as the outcome `timeout` of ONE case, not hang the whole run. A worker
+			// that overruns is abandoned (it cannot be killed) and a fresh one takes over.
+			let limit = std::time::Duration::from_secs(
+				std::env::var("VERIF_CASE_TIMEOUT_S").ok().and_then(|s| s.parse().ok()).unwrap_or(60),
+			);
+			let spawn_worker = || {
+				let (tx_line, rx_line) = std::sync::mpsc::channel::<String>();
+				let (tx_res, rx_res) = std::sync::mpsc::channel::<String>();
+				std::thread::Builder::new()
+					.stack_size(8 * 1024 * 1024)
+					.spawn(move || {
+						while let Ok(line) = rx_line.recv() {
+							if tx_res.send(streams::run_line(&line)).is_err() {
+								break;
+							}
+						}
+					})
+					.expect("spawn worker");
+				(tx_line, rx_res)
+			};
+			let (mut tx_line, mut rx_res) = spawn_worker();
+			let mut overruns = 0;
 			for line in stdin.lock().lines() {
 				let line = line.unwrap();
-				let res = streams::run_line(&line);
+				let res = if overruns >= 8 {
+					// too many abandoned workers still spinning: stop starting new work
+					"timeout".to_string()
+				} else {
+					tx_line.send(line).expect("worker alive");
+					match rx_res.recv_timeout(limit) {
+						Ok(r) => r,
+						Err(_) => {
+							overruns += 1;
+							let fresh = spawn_worker();
+							tx_line = fresh.0;
+							rx_res = fresh.1;
+							"timeout".to_string()
+						}
+					}
+				};
 				writeln!(out, "{res}").unwrap();
 				out.flush().unwrap();
 			}
